@@ -42,13 +42,15 @@ def plan(tier, d0=None, dseed=None):
         for mode in ("cont", "free"):
             p.append(("empty", mode, d0, "quick"))
             p.append(("empty", mode, d0 + 1, "reduced"))
-            p.append(("empty", mode, d0 - 1, "rich"))
+            p.append(("empty", mode, d0 - 2, "rich"))
             p.append(("empty", mode, d0, "low"))
         for s in SEEDS_Q:
             for mode in ("cont", "free"):
-                p.append((s, mode, dseed + (1 if s in KEY_SEEDS else 0), "half" if s == "halftick" else "quick"))
+                p.append((s, mode, dseed, "half" if s == "halftick" else "quick"))
                 if s != "halftick":
-                    p.append((s, mode, dseed, "rich"))
+                    p.append((s, mode, dseed - 1, "rich"))
+        for s in KEY_SEEDS:
+            p.append((s, "free", dseed + 1, "quick"))
     return p
 
 
